@@ -373,6 +373,47 @@ def run(repo, rep):
     eq = repo.mod("tensor").func("create_equivalence_id")
     rep.check(any("lru_cache" in norm(d) for d in eq.decorator_list) and norm(eq.body[-1]) == "return uuid.uuid4()", "C19-f", "ethosu/vela/tensor.py:create_equivalence_id",
               "ids are fresh uuids memoised by key (equal key <=> equal id)", norm(eq.body[-1]))
+    rep.clause("C19-g", "a quantised code enters the table arithmetic only as (code - zero point): the LeakyReLU / PReLU generators' multiplicands expand to terms in which every occurrence of the code is paired "
+               "with the zero point; a range guard on a shift and the shift it protects are the same variable")
+    from ..exprnorm import offset_paired
+
+    gox = repo.mod("tflite_graph_optimiser")
+    lr_ = gox.func("convert_lrelu_to_lut")
+    n_g = 0
+    for c in calls_in(lr_):
+        if (call_name(c) or "").endswith("multiply_by_quantized_multiplier") and c.args:
+            r_ = offset_paired(c.args[0], "x", "zp_in")
+            if r_ is None:
+                continue
+            n_g += 1
+            rep.check(r_, "C19-g", f"{GO}:convert_lrelu_to_lut", f"`{str(norm(c.args[0]))[:60]}` depends on the input code only through (x - zp_in)",
+                      "a term multiplies the raw code while the zero point is subtracted unscaled: every entry below the input zero point is computed from the wrong real value whenever the factor is not 1")
+    pr_ = gox.func("convert_prelu")
+    for st in ast.walk(pr_):
+        exprs = []
+        if isinstance(st, ast.Assign) and str(norm(st.targets[0])) in ("alpha_min", "alpha_max"):
+            exprs.append(st.value)
+        if isinstance(st, ast.Assign) and str(norm(st.targets[0])) == "op.attrs['alpha_scaling']" and isinstance(st.value, ast.Tuple):
+            exprs.append(st.value.elts[0])
+        for e_ in exprs:
+            for code in ("alpha.values.min()", "alpha.values.max()"):
+                r_ = offset_paired(e_, code, "alpha_zp")
+                if r_ is None:
+                    continue
+                n_g += 1
+                rep.check(r_, "C19-g", f"{GO}:convert_prelu", f"`{str(norm(e_))[:60]}` uses the alpha code only as ({code} - alpha_zp)",
+                          "the alpha tensor's zero point is not removed: the table is generated for alpha = scale * code instead of scale * (code - zero point)")
+    hs_ = gox.func("convert_hardswish_to_lut")
+    for node in ast.walk(hs_):
+        if isinstance(node, ast.If) and isinstance(node.test, ast.Compare) and len(node.test.ops) == 1 and isinstance(node.test.left, ast.Name) and node.test.left.id.endswith("_shift") \
+                and isinstance(node.test.comparators[0], ast.Constant):
+            g_var, g_k = node.test.left.id, node.test.comparators[0].value
+            for b in ast.walk(ast.Module(body=node.body, type_ignores=[])):
+                if isinstance(b, ast.BinOp) and isinstance(b.op, ast.Sub) and isinstance(b.right, ast.Constant) and b.right.value == g_k and isinstance(b.left, ast.Name) and b.left.id.endswith("_shift"):
+                    n_g += 1
+                    rep.check(b.left.id == g_var, "C19-g", f"{GO}:convert_hardswish_to_lut", f"under `{str(norm(node.test))}` the shift that is reduced by {g_k} is {g_var}",
+                              f"`{str(norm(b))}` uses another shift than the guarded one: the value is divided by the wrong power of two whenever this branch is taken")
+    rep.check(n_g >= 5, "C19-g", GO, "zero-point / shift-guard sites found", str(n_g))
     rep.clause("C19-d", "constant folding and table generation divide float32 scales only after widening them to double (reference precision) [rule shared with C09-b]")
     from . import c09
 
